@@ -153,8 +153,8 @@ pub mod model {
     pub fn live() -> isize {
         unsafe { LIVE - LIVE_BASE }
     }
-    /// Harness promise: every scalar that reaches EC_KEY_set_private_key is in 1..n-1 (the harness assumed it for the bytes it
-    /// decodes / draws). EC_KEY_set_private_key then ASSUMES the range instead of branching on it, so that a key built through the
+    /// Harness promise: every scalar that reaches EC_POINT_mul / EC_KEY_set_private_key is in 1..n-1 (the harness assumed it for
+    /// the bytes it decodes / draws). Both functions then ASSUME the range instead of branching on it, so that a key built through the
     /// repository's fallible constructor is a concretely-Ok value with a concrete pointer (README rule 3: no symbolic Ok/Err merge in
     /// front of the code under test). Harnesses that decide which scalars are accepted (`*_codec_*`, `*_random_h`,
     /// `seal_out_of_range_draw_h`) do not give the promise.
@@ -432,7 +432,11 @@ pub unsafe fn EC_POINT_mul(_group: *const EC_GROUP, r: *mut EC_POINT, n: *const 
     let k = low48(&nb);
     // always exactly the same uf calls, whatever the scalar (keeps the memo table's size independent of symbolic data)
     let pk = conv::p384_pk(&k);
-    *r = if nb.len == 0 {
+    *r = if model::scalars_promised() {
+        // harness promise (see model::promise_scalars_in_range): the scalar is in 1..n-1 — no branch, a concretely affine point
+        model::assume(nb.len != 0 && nb.len <= 48 && conv::scalar_in_range(&k));
+        EC_POINT { inf: false, enc: pk }
+    } else if nb.len == 0 {
         EC_POINT { inf: true, enc: [0; 49] }
     } else if nb.len <= 48 && conv::scalar_in_range(&k) {
         EC_POINT { inf: false, enc: pk }
